@@ -5,6 +5,7 @@
 #include <limits.h>
 #include <signal.h>
 #include <stdbool.h>
+#include <sys/mman.h>
 #include <stdio.h>
 #include <stdlib.h>
 #include <string.h>
@@ -380,6 +381,54 @@ int ops_misc(char **args, int na)
 		const char *end = (WIFEXITED(st) && WEXITSTATUS(st) == 10) ? "eof" : (WIFEXITED(st) && WEXITSTATUS(st) == 11) ? "null" :
 				  (WIFSIGNALED(st) && WTERMSIG(st) == SIGABRT) ? "abort" : (WIFEXITED(st) && WEXITSTATUS(st) == 99) ? "asan" : "crash";
 		printf("read %ld %s %s\n", n, last, end);
+		return 0;
+	}
+	if (!strcmp(op, "wa.huge") && na >= 2) {
+		/* finding F11: an entry whose value is 2^32 + extra bytes long, in a child process.  The value is an untouched
+		 * anonymous mapping (reads as zeros, costs no memory); the table is written to a real file (compression none),
+		 * read back and removed.  reply: add=<ok|fail>,<ok|fail> read=<entries> lens=<vlen,...> end=<eof|abort|null|crash> */
+		unsigned long long extra = strtoull(args[1], NULL, 10);
+		size_t vl = ((size_t)1 << 32) + (size_t)extra;
+		char path[320]; snprintf(path, sizeof path, "%s/huge.mtbl", vf_tmpdir); unlink(path);
+		int pfd[2]; if (pipe(pfd)) return -1;
+		fflush(stdout);
+		pid_t pid = fork();
+		if (pid == 0) {
+			close(pfd[0]);
+			int devnull = open("/dev/null", O_WRONLY); if (devnull >= 0) dup2(devnull, 2);
+			FILE *p = fdopen(pfd[1], "w");
+			uint8_t *v = mmap(NULL, vl, PROT_READ, MAP_PRIVATE | MAP_ANONYMOUS | MAP_NORESERVE, -1, 0);
+			if (v == MAP_FAILED) { fprintf(p, "nomem\n"); fflush(p); _exit(12); }
+			struct mtbl_writer_options *wo = mtbl_writer_options_init();
+			mtbl_writer_options_set_compression(wo, MTBL_COMPRESSION_NONE);
+			struct mtbl_writer *w = mtbl_writer_init(path, wo);
+			if (!w) { fprintf(p, "nomem\n"); fflush(p); _exit(12); }
+			mtbl_res r1 = mtbl_writer_add(w, (const uint8_t *)"a", 1, v, vl);
+			mtbl_res r2 = mtbl_writer_add(w, (const uint8_t *)"b", 1, (const uint8_t *)"x", 1);
+			fprintf(p, "add=%s,%s ", r1 == mtbl_res_success ? "ok" : "fail", r2 == mtbl_res_success ? "ok" : "fail"); fflush(p);
+			mtbl_writer_destroy(&w);
+			munmap(v, vl);
+			struct mtbl_reader *r = mtbl_reader_init(path, NULL);
+			if (!r) { fprintf(p, "read=0 lens=- end=null\n"); fflush(p); _exit(10); }
+			struct mtbl_iter *it = mtbl_source_iter(mtbl_reader_source(r));
+			const uint8_t *k, *val; size_t kl, vlen; long n = 0; char lens[256] = ""; size_t lo = 0;
+			fprintf(p, "read="); fflush(p);
+			while (n < 8 && mtbl_iter_next(it, &k, &kl, &val, &vlen) == mtbl_res_success) {
+				n++; lo += snprintf(lens + lo, sizeof lens - lo, "%s%zu", lo ? "," : "", vlen);
+			}
+			fprintf(p, "%ld lens=%s end=eof\n", n, lo ? lens : "-"); fflush(p);
+			_exit(10);
+		}
+		close(pfd[1]);
+		FILE *p = fdopen(pfd[0], "r"); char line[1024] = ""; size_t ll = 0; int ch;
+		while ((ch = fgetc(p)) != EOF && ll + 1 < sizeof line) if (ch != '\n') line[ll++] = (char)ch;
+		line[ll] = 0; fclose(p);
+		int st = 0; waitpid(pid, &st, 0);
+		unlink(path);
+		if (WIFEXITED(st) && WEXITSTATUS(st) == 10) printf("%s\n", line);
+		else if (WIFEXITED(st) && WEXITSTATUS(st) == 12) puts("nomem");
+		else printf("%s%s end=%s\n", line, strstr(line, "read=") ? "? lens=?" : " read=0 lens=-",
+			    (WIFSIGNALED(st) && WTERMSIG(st) == SIGABRT) ? "abort" : (WIFEXITED(st) && WEXITSTATUS(st) == 99) ? "asan" : "crash");
 		return 0;
 	}
 	if (!strcmp(op, "cz.libinfo")) {
